@@ -195,9 +195,55 @@ def run(tier, seed):
             ctx.count("interleavings_isolated")
             ctx.nontriv(json.dumps([sorted(set(a for a in A if a in HOSTILE)), " ".join(skeleton_text(b) for b in B)[:400]]))
     ctx.legs.append("dev")
+    many_instances(ctx)
     shutil.rmtree(fdir, ignore_errors=True)
     ctx.sample({"A": pairs[0][0][:12], "B": pairs[0][1][:12]})
     return ctx.finish(min_evals=100, min_nontrivial=50)
+
+
+def many_instances(ctx):
+    """hundreds of instances alive on one thread, each with its own marker, macro and counter closure: reads through randomly chosen older
+    instances must see their own state whatever the others did since"""
+    rng = ctx.rng
+    jobs, plans = [], []
+    for j in range(4):
+        n = rng.choice([120, 250])
+        steps, expect = [], []
+        for i in range(n):
+            steps.append({"new": {"stdlib": True}}); expect.append(None)
+            steps.append({"it": i, "src": "(define marker %d)" % (7000 + i)}); expect.append(None)
+            if i % 3 == 0:
+                steps.append({"it": i, "src": "(define-syntax mine (syntax-rules () ((mine) 'macro-of-%d)))" % i}); expect.append(None)
+            if i % 5 == 0:
+                steps.append({"it": i, "src": rng.choice(HOSTILE)}); expect.append(None)
+            k = rng.randrange(i + 1)
+            steps.append({"it": k, "src": "marker"}); expect.append({"i": 7000 + k})
+            k = rng.randrange(i + 1)
+            if k % 3 == 0:
+                steps.append({"it": k, "src": "(mine)"}); expect.append({"y": "macro-of-%d" % k})
+        jobs.append({"id": "many-%d" % j, "interps": [], "steps": steps, "fuel": 100000}); plans.append(expect)
+    recs = core.run_jobs(jobs, "dev", timeout=1800, tag="c19m")
+    for expect, rec, job in zip(plans, recs, jobs):
+        if rec is None or "steps" not in rec:
+            ctx.inconclusive_cases += 1; continue
+        ctx.evaluations += 1
+        bad = False
+        for i, (e, s) in enumerate(zip(expect, rec["steps"])):
+            if "new" in job["steps"][i]:
+                ctx.count("instances_created")
+                if "ok" not in s:
+                    ctx.violation({"what": "creating an instance failed while many instances are alive", "kind": "new-instance", "nth": sum(1 for x in job["steps"][:i + 1] if "new" in x),
+                                   "observed": s, "dedupe": "many-new"}, {"steps": [x.get("src", "new") for x in job["steps"][:i + 1]][-12:]})
+                    bad = True; break
+            elif e is not None:
+                ctx.count("reads_through_older_instances")
+                if s.get("ok") != e:
+                    ctx.violation({"what": "an instance among hundreds does not see its own state", "kind": "interference", "instance": job["steps"][i]["it"], "form": job["steps"][i]["src"],
+                                   "expected": e, "observed": essential(s), "dedupe": "many-read|" + job["steps"][i]["src"][:6]}, {"steps": [x.get("src", "new") for x in job["steps"][:i + 1]][-12:]})
+                    bad = True; break
+        if not bad:
+            ctx.nontriv("many|%d" % len(expect))
+    ctx.legs.append("many-instances")
 
 
 def skeleton_text(t):
